@@ -313,8 +313,11 @@ Encode(x, chain, chs) == EncodeFrom(x, chain, chs, Len(chain))
 
 -----------------------------------------------------------------------------
 (* Impl-shaped layer: Stream::decompressed_content as lopdf does it (src/object.rs,           *)
-(* src/filters/png.rs).  One parameter dictionary for the whole chain, taken only when        *)
-(* DecodeParms *is* a dictionary; confirmed deviations are switches (DESIGN 2.9):            *)
+(* src/filters/png.rs).  DecodeParms is one dictionary (handed to every stage) or an array     *)
+(* parallel to the filters.  The deviations once confirmed are switches (DESIGN 2.9); all      *)
+(* three are repaired in lopdf (fix: commits 5efcc47, e585a1a, 82b7d97), so the code as it is   *)
+(* is the layer with every switch FALSE; TRUE re-creates the old defect (used to name a         *)
+(* regression by its exact effect and as a design-level negative control):                     *)
 (*   devAvg   (h16)  Average reconstruction computes left + above \div 2                      *)
 (*   devArr   (h17)  DecodeParms given as an array is ignored                                *)
 (*   devNul          ASCII85: byte 0 is not skipped as white-space but ends the data          *)
